@@ -392,6 +392,18 @@ func c19Lib(o *c19Order, caps []c19Cap, version, api string, literal bool) c19Ob
 	return ob
 }
 
+// c19OwnVersion is an application's own Version type (the interface is
+// meant to be satisfied by callers): one object whose spec changes, e.g. on
+// reconnect to an upgraded server, and that is evaluated again.
+type c19OwnVersion struct {
+	spec string
+	caps map[*capability.Capability]bool
+}
+
+func (v *c19OwnVersion) VersionString() string                          { return v.spec }
+func (v *c19OwnVersion) SetCapability(c *capability.Capability, b bool) { v.caps[c] = b }
+func (v *c19OwnVersion) Has(c *capability.Capability) bool              { return v.caps[c] }
+
 // c19Reuse evaluates the steps one after the other on ONE Target with ONE
 // set of Capability objects and compares every outcome with the outcome on
 // freshly built objects: an evaluation must not depend on earlier ones.
@@ -402,11 +414,26 @@ func c19Reuse(r *rt.Result, l *c19Local, cs c19Case) {
 		ptrs[i] = c19Build(c, i, false)
 		t.Capabilities = append(t.Capabilities, ptrs[i])
 	}
+	own := &c19OwnVersion{caps: map[*capability.Capability]bool{}}
 	for si, st := range cs.Reuse {
 		o := c19GetOrder(st.Comparer)
 		if o == nil {
 			return
 		}
+		// the same Version object evaluated again with another spec
+		var oerr error
+		var ohas []bool
+		opi := rt.Catch(func() {
+			t.VersionComparer = o.lib
+			own.spec = st.Version
+			oerr = t.SetCapabilities(own)
+			if oerr == nil {
+				ohas = make([]bool, len(ptrs))
+				for i, p := range ptrs {
+					ohas[i] = own.Has(p)
+				}
+			}
+		})
 		var ob c19Obs
 		ob.pi = rt.Catch(func() {
 			t.VersionComparer = o.lib
@@ -438,6 +465,17 @@ func c19Reuse(r *rt.Result, l *c19Local, cs c19Case) {
 		if (ob.err != nil) != (fresh.err != nil) || (ob.err == nil && !c19HasEq(ob.has, fresh.has)) {
 			r.Violate("reuse/outcome-depends-on-earlier-evaluation", fmt.Sprintf("capabilities %s: evaluation %d (comparer %s, version %q) on objects that had been evaluated before (%v) gives %s, the same evaluation on freshly built objects gives %s", c19Describe(cs.Caps), si+1, st.Comparer, st.Version, cs.Reuse[:si], c19OutcomeStr(ob), c19OutcomeStr(fresh)), cs)
 			return
+		}
+		if opi != nil {
+			r.Violate("panic/"+opi.Frame+"/reuse", fmt.Sprintf("evaluation %d of a reused Version object panicked: %s", si+1, opi.Value), cs)
+			return
+		}
+		if freshSC := c19Lib(o, cs.Caps, st.Version, "SetCapabilities", false); freshSC.pi == nil && freshSC.bad == "" {
+			if (oerr != nil) != (freshSC.err != nil) || (oerr == nil && !c19HasEq(ohas, freshSC.has)) {
+				r.Violate("reuse/version-object-keeps-earlier-answers", fmt.Sprintf("capabilities %s: one Version object evaluated with SetCapabilities for the specs %v in turn reports %v (err=%v) after the last one; a fresh version with spec %q reports %s", c19Describe(cs.Caps), cs.Reuse[:si+1], ohas, oerr, st.Version, c19OutcomeStr(freshSC)), cs)
+				return
+			}
+			l.ctr["reuse_version_object_evaluations"]++
 		}
 		if si > 0 {
 			l.ctr["reuse_same_as_fresh"]++
